@@ -503,20 +503,58 @@ func c03() []*Ob {
 						c.Violation("sibling:"+it.typ+":direction", load.Pos(), "%s no longer moves blockIndex with %s: the mirror rule for its range cut cannot be applied", it.typ, it.step)
 						continue
 					}
+					// a fact that says the bound ahead has been reached inside this block: for the iterator that walks towards higher
+					// LIDs "far < x" or "far <= x" (x a LID of the block), for the one that walks towards lower LIDs "far > x" / "far >= x" —
+					// whichever way the comparison is written and whichever branch of it is taken
 					mentions := func(facts []Fact, field string) bool {
+						isFar := func(v ssa.Value) bool {
+							if u, ok := v.(*ssa.UnOp); ok && u.Op == token.MUL {
+								if fa, ok := u.X.(*ssa.FieldAddr); ok {
+									if _, fn, _, okf := FieldOf(fa); okf && fn == field {
+										return true
+									}
+								}
+							}
+							return false
+						}
 						for _, f := range facts {
 							bo, ok := f.Cond.(*ssa.BinOp)
 							if !ok {
 								continue
 							}
-							for _, op := range []ssa.Value{bo.X, bo.Y} {
-								if u, ok := op.(*ssa.UnOp); ok && u.Op == token.MUL {
-									if fa, ok := u.X.(*ssa.FieldAddr); ok {
-										if _, fn, _, okf := FieldOf(fa); okf && fn == field {
-											return true
-										}
-									}
+							op := bo.Op
+							switch {
+							case isFar(bo.X):
+							case isFar(bo.Y):
+								switch op { // x OP far  ==>  far OP' x
+								case token.LSS:
+									op = token.GTR
+								case token.LEQ:
+									op = token.GEQ
+								case token.GTR:
+									op = token.LSS
+								case token.GEQ:
+									op = token.LEQ
 								}
+							default:
+								continue
+							}
+							if !f.Val {
+								switch op {
+								case token.LSS:
+									op = token.GEQ
+								case token.LEQ:
+									op = token.GTR
+								case token.GTR:
+									op = token.LEQ
+								case token.GEQ:
+									op = token.LSS
+								default:
+									continue
+								}
+							}
+							if it.step == token.ADD && (op == token.LSS || op == token.LEQ) || it.step == token.SUB && (op == token.GTR || op == token.GEQ) {
+								return true
 							}
 						}
 						return false
